@@ -784,6 +784,18 @@ func (fc *FnCtx) evalCall(env *specEnv, x *ast.CallExpr) Val {
 		}
 		ns := fc.sortByName(env, id.Name)
 		return Val{T: arg(1).T, Sort: ns.sort, Ty: ns.ty}
+	case "elemarr":
+		// elemarr(T, a): the content (index -> element) of the array with id a of element type T
+		t := fc.resolveType(env, x.Args[0])
+		a := arg(1)
+		k := fc.elemKey(t)
+		return Val{T: app("select", fc.heapGet(env.st, k), a.T), Sort: fmt.Sprintf("(Array Int %s)", fc.sorts.SortOf(t))}
+	case "elemat":
+		// elemat(T, a, j): element j of the array with id a of element type T (offset 0)
+		t := fc.resolveType(env, x.Args[0])
+		a, j := arg(1), arg(2)
+		k := fc.elemKey(t)
+		return fc.mkVal(app(fc.atFn(t), fc.heapGet(env.st, k), a.T, "0", j.T), t)
 	case "bytearr":
 		// bytearr(a): the content (index -> byte) of the byte array with id a, for frame clauses
 		a := arg(0)
